@@ -288,10 +288,12 @@ func (ex *Exec) enterLoop(fr *Frame, h *ssa.BasicBlock, in *State) *State {
 		envIn := ex.loopEnv(fr, h, in)
 		preCells := st.clone()
 		envHead := ex.loopEnv(fr, h, preCells)
+		ex.loopHavoc = true
 		for _, m := range spec.Modifies {
 			ex.havocLvalue(st, envIn, m.Text)
 			ex.havocLvalue(st, envHead, m.Text)
 		}
+		ex.loopHavoc = false
 	} else if ef.heapAll {
 		if ex.spec == 0 {
 			ex.note("%s: loop %d havocs the whole heap (%v)", fr.label, ord, ef.why)
